@@ -239,8 +239,17 @@ func (matrix *DenseReal32Matrix) SetIdentity() {
   }
 }
 func (matrix *DenseReal32Matrix) Reset() {
-  for i := 0; i < len(matrix.values); i++ {
-    matrix.values[i].Reset()
+  if matrix.rows*matrix.cols == len(matrix.values) {
+    for i := 0; i < len(matrix.values); i++ {
+      matrix.values[i].Reset()
+    }
+  } else {
+    // a view resets its own elements only
+    for i := 0; i < matrix.rows; i++ {
+      for j := 0; j < matrix.cols; j++ {
+        matrix.values[matrix.index(i, j)].Reset()
+      }
+    }
   }
 }
 func (matrix *DenseReal32Matrix) Row(i int) Vector {
